@@ -158,6 +158,14 @@ let run_attack f =
         | Some (p', b') -> go p' b' (i + 1) r) in
   go N0 N0 0 sizes
 
+(* CB id authority|none path|none key extra subprotocols(hex,hex|-) : ClientRequestBuilder -> request bytes *)
+let run_builder f =
+  let auth = if f.(2) = "none" then None else Some (bytes_of_hex f.(2)) in
+  let path = if f.(3) = "none" then None else Some (bytes_of_hex f.(3)) in
+  let subs = List.map bytes_of_hex (list_of_field f.(6)) in
+  hres_s (fun (req, key) -> "ok:" ^ hex_of_bytes req ^ ":" ^ hex_of_bytes key)
+    (builder_request_bytes auth path (bytes_of_hex f.(4)) (headers_of f.(5)) subs)
+
 let handlers : (string * (string array -> string)) list = [
   ("HS", run_hs_server); ("HCM", run_hs_client); ("AK", run_accept_key); ("URI", run_uri);
-  ("SD", run_server_decide); ("GR", run_generate_request); ("AC", run_attack) ]
+  ("SD", run_server_decide); ("CB", run_builder); ("GR", run_generate_request); ("AC", run_attack) ]
